@@ -364,15 +364,15 @@ def items_for(quick):
     allperms = [list(p) for p in itertools.permutations([1, 2, 3])]
     # thorough: (5 bases, 5 tails, the full menu for every dependency, all 6 permutations) ran past 50 minutes; the grid below is about
     # 3-4x the quick one per cell and keeps every axis
-    bases = [None, 'out'] if quick else [None, 'out', './o/', '/tmp/o']
-    tails = [(), (0,), (1,)] if quick else [(), (0,), (1,), (2, 0), (3, 3)]
+    bases = [None, 'out'] if quick else [None, 'out', './o/']
+    tails = [(), (0,), (1,)] if quick else [(), (0,), (1,), (3, 3)]
     menu23 = ['T.ts', 'a.ts', '../a.ts', 's/../T.ts'] if quick else list(dict.fromkeys(['T.ts', 'a.ts', '../a.ts', 's/../T.ts'] + list(MENU)))[:5]
     perms = [allperms[5], allperms[3]] if quick else [allperms[5], allperms[3], allperms[1]]
     for cfg in ('plain', 'esm'):
         for base in (bases if cfg == 'plain' else bases[:1]):
             for tail in (tails if (cfg == 'plain' and base is None) else tails[:2]):
                 items.append((cfg, base, tail, 0, menu23, perms))
-            items.append((cfg, base, (), 2 if quick else 3, menu23[:3], perms[:2]))
+            items.append((cfg, base, (), 2, menu23[:3], perms[:2]))       # 3 symbolic placement bytes quadruple these cells: not run
     return items
 
 
